@@ -31,7 +31,7 @@ def run(ctx):
         "the slice-initializer guard itself is not modelled at slot level",
     ]
     proved = prove(ctx, MODULES)
-    run_coll(ctx, 700 if q else 100000, 12, "drops", oracle_props=["C06"])
+    run_coll(ctx, 3000 if q else 100000, 12, "drops", oracle_props=["C06"])
     if not q:
         run_coll(ctx, 6000, 14, "deep", oracle_props=["C06"], seed_offset=7, label="deep(every panic index, every dropped value as bomb)")
         run_coll(ctx, 2, 1, "split", oracle_props=["C06"], seed_offset=3, label="split(parts dropped in both orders)")
@@ -40,7 +40,7 @@ def run(ctx):
         run_coll(ctx, 3000, 14, "deep", oracle_props=["C06"], seed_offset=1000, label="deep-search")
     # the typed alloc_* family (alloc_with, alloc_slice_clone/fill/fill_with/move, alloc_iter*, alloc_iter_mut*) lives in the
     # arena harness: instrumented element types, a panic injected at a random callback, exactly-once accounting afterwards
-    run_arena(ctx, 60 if q else 3000, 100, "general", fields=(0,), oracle_props=["C06"], seed_offset=40, label="family(general)")
+    run_arena(ctx, 250 if q else 3000, 100, "general", fields=(0,), oracle_props=["C06"], seed_offset=40, label="family(general)")
     if not q:
         run_arena(ctx, 1500, 150, "scopes", fields=(0,), oracle_props=["C06"], seed_offset=41, label="family(scopes)")
     finish_arena_obligation(ctx)
